@@ -11,6 +11,8 @@ WORLDS = {
     "gmx2(mild,small)": lambda: catalog.gmx2_world(kind="mild", impact="small"),
     "gmx2(strong,large)": lambda: catalog.gmx2_world(kind="strong", impact="large"),
     "gmx2(mild,small,single-token)": lambda: catalog.gmx2_world(kind="mild", impact="small", single_token=True),
+    "gmx2(mild,small,synthetic-index)": lambda: catalog.gmx2_world(kind="mild", impact="small", synthetic=True),  # index token is not a pool token
+    "gmx2(mild,small,no-short-token-entry)": lambda: catalog.gmx2_world(kind="mild", impact="small", long_only_wallet=True),
     "squeeth(eq)": lambda: catalog.squeeth_world("eq"),
     "squeeth(ne)": lambda: catalog.squeeth_world("ne"),
     "squeeth(eq,no-osqth-entry)": lambda: catalog.squeeth_world("eq", with_osqth=False),
